@@ -8,7 +8,7 @@ from bitarray.util import ba2int, int2ba
 from common import bits_str, hex_str, impl_error
 
 PROP = "C05"
-MODULES = ["C05", "C05a"]
+MODULES = ["C05", "C05a", "C05b"]
 GEN = ["Crc"]
 MATCHERS = {}
 # extra files for the drift detector (the front ends' byte/bit plumbing lives here)
@@ -2391,6 +2391,10 @@ def mini_oracle(seed, n, first_calls_fail=False, between=None):
         mv = ETSI_MASKS.get(m.name, m.value)
         sn = rng.randrange(128)
         c32 = rng.choice([None, rng.getrandbits(32) | 1, (rng.getrandbits(32) | 1).to_bytes(4, "big")])
+        if i % 4 == 3:
+            # parts that repeat a check sum of each other: the data ends with the CRC-32 trailer of the octets before, crc32 = the same octets
+            c32 = ref_crc32(d).to_bytes(4, "little")
+            d = d + c32
         extra = [] if c32 is None else bytes_bits(c32 if isinstance(c32, bytes) else c32.to_bytes(4, "big"))
         tag = "none" if c32 is None else (f"i:{c32}" if isinstance(c32, int) else "b:" + c32.hex())
         b8 = [rng.getrandbits(1) for _ in range(rng.randint(0, 72))]
@@ -2531,6 +2535,384 @@ def child_main(argv):
     sys.stdout.write(json.dumps({"debug": __debug__, "cases": cases, "failures": fails}, default=str) + "\n")
 
 
+# ================================================================================================
+# round 4: self-referential inputs ACROSS ARGUMENTS / PARTS
+# ------------------------------------------------------------------------------------------------
+# A front end with several parts / arguments (CRC9: data, crc32, dbsn, mask [, crc9 for check]; CRC16: data, crc16,
+# mask; CRC32: data, crc32; CRC8: bits, crc8; a register object: the pieces) is fed inputs in which ONE PART IS A
+# CHECK SUM OF (a prefix of) ANOTHER PART *and* THE SAME VALUE IS HANDED OVER AGAIN AS A SEPARATE ARGUMENT:
+#   data = X ‖ T   with  T = check sum of X (every convention of this file, every octet notation)  and  crc32 = T,
+#   data = X ‖ T,  check value = T;   dbsn = low / high bits of a check sum of the data;   piece k+1 = digest so far …
+# The expectation is always the reference division of what the standard says is covered (for CRC-9: data ‖ crc32 ‖
+# dbsn, each part exactly once), never anything computed by the library.
+def ref_crc32(d: bytes) -> int:
+    return rem_int(bytes_bits(ref_byteswap(d)), 32)
+
+
+def ref_crc16(d: bytes, mv: int) -> int:
+    return (rem_int(bytes_bits(d), 16) ^ 0xFFFF) ^ mv
+
+
+def sn_bits(sn: int):
+    return [(sn >> (6 - k)) & 1 for k in range(7)]
+
+
+def ref_crc9(d: bytes, extra, sn: int, mv: int) -> int:
+    return (rem_int(bytes_bits(d) + list(extra) + sn_bits(sn), 9) ^ 0x1FF) ^ mv
+
+
+def convention_values(x: bytes, mv16: int, mv9: int, sn: int):
+    """[(label, width, value)]: the check sums of the octets x in every convention this file knows — what this
+    library, another layer of the same stack or a peer with another flavour of the same polynomial would append"""
+    import binascii
+    import zlib
+
+    xb = bytes_bits(x)
+    c32 = ref_crc32(x)
+    p16 = rem_int(xb, 16)
+    return [
+        ("crc32", 32, c32), ("crc32-of-unswapped-octets", 32, rem_int(xb, 32)), ("zlib.crc32", 32, zlib.crc32(x)),
+        ("crc32-bzip2-flavour", 32, _ref_variant(xb, 32, init_ones=True, xorout=0xFFFFFFFF)), ("crc32-complemented", 32, c32 ^ 0xFFFFFFFF),
+        ("crc16", 16, ((p16 ^ 0xFFFF) ^ mv16) & 0xFFFF), ("crc16-plain-remainder", 16, p16), ("crc16-not-masked", 16, p16 ^ 0xFFFF), ("crc_hqx-init-ffff", 16, binascii.crc_hqx(x, 0xFFFF)),
+        ("crc9", 9, ref_crc9(x, [], sn, mv9) & 0x1FF), ("crc9-plain-remainder", 9, rem_int(xb + sn_bits(sn), 9)),
+        ("crc8", 8, rem_int(xb, 8)),
+    ]
+
+
+def value_octets(width: int, v: int, n: int):
+    """[(notation, n octets)]: a width-bit check sum written into n octets — big-endian, little-endian (the library's
+    CRC-32 trailer), octet pairs swapped; a narrower value left-padded with zeros or repeated, a wider one cut"""
+    nbo = (width + 7) // 8
+    be = v.to_bytes(nbo, "big")
+    forms = [("be", be), ("le", be[::-1])]
+    if nbo == 4:
+        forms.append(("octet-pairs-swapped", ref_byteswap(be)))
+    out, seen = [], set()
+    for lab, o in forms:
+        if len(o) == n:
+            cands = [(lab, o)]
+        elif len(o) < n:
+            cands = [(lab + "-zero-padded", bytes(n - len(o)) + o)] + ([(lab + "-repeated", o * (n // len(o)))] if n % len(o) == 0 else [])
+        else:
+            cands = [(lab + "-low-octets", o[-n:]), (lab + "-high-octets", o[:n])]
+        for l2, o2 in cands:
+            if o2 not in seen:
+                seen.add(o2)
+                out.append((l2, o2))
+    return out
+
+
+def burst_in_octets(rng, o: bytes, maxlen: int) -> bytes:
+    """o with a burst of 1..maxlen bits (first and last bit of the window inverted, random in between) inside it"""
+    n = 8 * len(o)
+    e, _, _ = burst_pattern(rng, n, min(maxlen, n))
+    return (bitarray(bytes_bits(o)) ^ e).tobytes()
+
+
+def cross_part_cases(ctx, crcmod, CRC8, CRC9, CRC16, CRC32, CrcMasks):
+    rng = ctx.rng
+    masks = list(CrcMasks)
+    rate_masks = [CrcMasks.Rate12DataContinuation, CrcMasks.Rate34DataContinuation, CrcMasks.Rate1DataContinuation]
+    pairs9, pairs16, pairs32, pairs8, pairs_r = [], [], [], [], []
+    nfail = [0]
+
+    def mval(m):
+        return ETSI_MASKS.get(m.name, m.value)
+
+    def fail(kind, inp, what, expected, actual):
+        if nfail[0] < 40:
+            nfail[0] += 1
+            ctx.fail(kind, inp, what, expected=expected, actual=actual)
+
+    def rnd(n):
+        return bytes(rng.getrandbits(8) for _ in range(n))
+
+    def prefix(n):
+        """the octets the check sum is taken over: mostly random, sometimes all-zero / all-ones / one bit"""
+        k = rng.randrange(8)
+        if k == 0:
+            return bytes(n)
+        if k == 1:
+            return b"\xff" * n
+        if k == 2 and n:
+            u = bytearray(n)
+            u[rng.randrange(n)] = 1 << rng.randrange(8)
+            return bytes(u)
+        return rnd(n)
+
+    # ---------------------------------------------------------------- CRC-9 from parts: data, crc32, dbsn (and the value of check())
+    def crc9_args(t: bytes):
+        """the octets t as a `crc32` argument in every accepted notation: (tag, argument, the 32 bits the standard covers)"""
+        ib, il = int.from_bytes(t, "big"), int.from_bytes(t, "little")
+        out = [("b:" + t.hex(), t, bytes_bits(t)), (f"i:{ib}", ib, bytes_bits(t) if ib else [])]
+        if il != ib:
+            out.append((f"i:{il}", il, bytes_bits(t[::-1]) if il else []))  # the trailer read as a little-endian integer: other octets
+        return out
+
+    def one9(d, sn, m, tag, arg, extra, klass, deep=True, bucket=None):
+        mv = mval(m)
+        good = ref_crc9(d, extra, sn, mv)
+        r = call(CRC9.calculate_from_parts, d, sn, m, arg)
+        pairs9.append((f"crc9 {hex_str(d)} {sn} {m.value} {tag}", out_int(r)))
+        ctx.case(("crc9-cross", d, sn, m.name, tag))
+        ctx.count(f"cross:crc9:{bucket or klass.split(';')[0]}")
+        inp = {"component": "crc9", "data": hex_str(d), "serial": sn, "mask": m.name, "crc32": tag, "class": klass}
+        if r != good:
+            fail("crc9-front", inp, f"CRC9.calculate_from_parts is not (inverted remainder of data|crc32|dbsn) xor mask on parts that repeat a check sum of each other ({klass})", good, out_int(r))
+        if not deep:
+            return
+        # check(): exactly the computed value — not the value without the crc32 part, not the one with the data tail dropped
+        wrong = [good ^ (1 << rng.randrange(9)), ref_crc9(d, [], sn, mv), ref_crc9(d[:-4], extra, sn, mv), ref_crc9(d[:-4], [], sn, mv), ref_crc9(d, list(extra) + list(extra), sn, mv), sn, sn << 2]
+        for v in dict.fromkeys([good] + wrong):
+            c = call(CRC9.check, d, sn, v, m, arg)
+            pairs9.append((f"crc9.check {hex_str(d)} {sn} {v} {m.value} {tag}", out_bool(c)))
+            ctx.case(("crc9.check-cross", d, sn, v, m.name, tag))
+            exp = "ERR AssertionError" if v > 511 else (v == good)
+            if c != exp:
+                fail("crc9-check", dict(inp, component="crc9.check", value=v), f"CRC9.check does not accept exactly the computed value on parts that repeat a check sum of each other ({klass})", str(exp), str(c))
+        # corruption INSIDE the duplicated part: a burst of at most 9 bits in the crc32 argument / in the last four data octets
+        for where in ("crc32-argument", "data-tail"):
+            if where == "crc32-argument":
+                if not isinstance(arg, bytes):
+                    continue
+                a2 = burst_in_octets(rng, arg, 9)
+                d2, tag2, arg2, extra2 = d, "b:" + a2.hex(), a2, bytes_bits(a2)
+            else:
+                if len(d) < 4:
+                    continue
+                d2, tag2, arg2, extra2 = d[:-4] + burst_in_octets(rng, d[-4:], 9), tag, arg, extra
+            good2 = ref_crc9(d2, extra2, sn, mv)
+            r2 = call(CRC9.calculate_from_parts, d2, sn, m, arg2)
+            pairs9.append((f"crc9 {hex_str(d2)} {sn} {m.value} {tag2}", out_int(r2)))
+            ctx.case(("crc9-cross-burst", d2, sn, m.name, tag2))
+            ctx.count(f"cross:crc9:burst-inside-{where}")
+            if good2 == good:
+                raise AssertionError("harness: a burst <= 9 bits does not change the reference CRC-9")
+            if r2 != good2:
+                fail("crc9-front", {"component": "crc9", "data": hex_str(d2), "serial": sn, "mask": m.name, "crc32": tag2, "class": klass + f", then a burst inside the {where}"},
+                     f"CRC9.calculate_from_parts is not the reference value next to parts that repeat a check sum of each other ({klass}; burst inside the {where})", good2, out_int(r2))
+            if not is_err(r) and r == r2:
+                fail("burst-undetected", {"component": "burst-crc9-parts", "data": hex_str(d), "serial": sn, "mask": m.name, "crc32": tag, "data2": hex_str(d2), "crc32_2": tag2, "class": klass},
+                     f"CRC-9 parts differing by a burst of at most 9 bits inside the {where} get the same CRC-9 ({klass})", "different", out_int(r))
+
+    # block sizes: 6 / 12 / 18 octets = a confirmed LAST block of rate 1/2, 3/4, 1 (the crc32 part is supplied there), 10 / 16 / 22 = the
+    # other confirmed blocks; each with the mask of its rate; then other sizes with any mask
+    rate_of = {6: 0, 10: 0, 12: 1, 16: 1, 18: 2, 22: 2}
+    combos = []
+    for nb in (6, 12, 18, 10, 16, 22, 4, 5, 8, rng.randint(7, 30)):
+        x = prefix(max(0, nb - 4))
+        m = rate_masks[rate_of[nb]] if nb in rate_of else rng.choice(masks)
+        sns = [rng.choice([0, 127, rng.randrange(128)])] + ([0, 127, rng.randrange(128)] if nb in rate_of else [])
+        for si, sn in enumerate(dict.fromkeys(sns)):
+            for lab, width, v in convention_values(x, mval(rng.choice(masks)) & 0xFFFF, mval(m) & 0x1FF, sn):
+                if si and lab != "crc32":
+                    continue  # further serial numbers: the library's own CRC-32 only
+                for nota, t in value_octets(width, v, 4):
+                    layouts = [("data = X|T, crc32 = T", x + t), ("data = T|X, crc32 = T", t + x), ("data = X|T|T, crc32 = T", x + t + t), ("data = X|T|pad, crc32 = T", x + t + bytes(rng.randint(1, 4))),
+                               ("data = X|T, crc32 = T octet-reversed", None), ("data = T, crc32 = T", t)]
+                    for lay, d in (layouts if not si else layouts[:1]):
+                        targ = t
+                        if d is None:
+                            d, targ = x + t, t[::-1]
+                        for tag, arg, extra in crc9_args(targ):
+                            # always: the 32-bit conventions at the tail (the layouts of a complete last block) for the block sizes, and the
+                            # library's own CRC-32 (little- / big-endian) in EVERY layout; the rest is sampled
+                            prio = (width == 32 and lay.startswith(("data = X|T, crc32 = T", "data = T, ")) and (nb in rate_of or nb == 4)) or (lab == "crc32" and nota in ("le", "be") and not si)
+                            combos.append((prio, d, sn, m, tag, arg, extra, f"{lay}; T = {lab} of X, {nota}"))
+    first = [c for c in combos if c[0]]
+    rest = [c for c in combos if not c[0]]
+    chosen = first + rng.sample(rest, min(len(rest), budget2(ctx, 260, 2400)))
+    for k, (prio, d, sn, m, tag, arg, extra, klass) in enumerate(chosen):
+        one9(d, sn, m, tag, arg, extra, klass, deep=(prio and "T = crc32 of X" in klass) or k % 4 == 0)
+    ctx.count("cross:crc9:combinations-constructed", len(combos))
+    # provenance of the duplicated part: the very same bytes OBJECT as data tail source and crc32, a bytearray / memoryview of it
+    for _ in range(budget2(ctx, 6, 40)):
+        x = rnd(rng.choice([6, 12, 18]))
+        t = ref_crc32(x).to_bytes(4, "little")
+        d = x + t
+        sn, m = rng.randrange(128), rng.choice(rate_masks)
+        good = ref_crc9(d, bytes_bits(t), sn, mval(m))
+        for lab, arg in (("slice of the data object", d[-4:]), ("bytearray", bytearray(t)), ("memoryview", memoryview(t)), ("memoryview of the data", memoryview(d)[-4:])):
+            r = call(CRC9.calculate_from_parts, d, sn, m, arg)
+            ctx.case(("crc9-cross-provenance", d, sn, m.name, lab))
+            ctx.count(f"cross:crc9:crc32-argument-is-{lab.split(' ')[0]}")
+            # an argument type the front end refuses on the unchanged tree is not part of the property: only wrong VALUES count
+            if not is_err(r) and r != good:
+                fail("crc9-front", {"component": "crc9", "data": hex_str(d), "serial": sn, "mask": m.name, "crc32": "b:" + t.hex(), "class": f"data = X|T, crc32 = T handed over as {lab}; T = crc32 of X, le"},
+                     f"CRC9.calculate_from_parts with the crc32 part handed over as {lab}", good, out_int(r))
+    # the serial number repeats bits of a check sum of the other parts; the data tail repeats the CRC-9 that check() is asked about
+    for _ in range(budget2(ctx, 24, 200)):
+        nb = rng.choice([10, 16, 22, 6, 12, 18, rng.randint(2, 24)])
+        d = prefix(nb)
+        m = rng.choice(rate_masks + [rng.choice(masks)])
+        mv = mval(m)
+        c32 = ref_crc32(d)
+        tagarg = rng.choice([("none", None, []), (f"i:{c32}", c32, bytes_bits(c32.to_bytes(4, "big")) if c32 else []), ("b:" + c32.to_bytes(4, "little").hex(), c32.to_bytes(4, "little"), bytes_bits(c32.to_bytes(4, "little")))])
+        tag, arg, extra = tagarg
+        srcs = [("crc32", 32, c32), ("crc16", 16, ref_crc16(d, ETSI_MASKS["DataHeader"]) & 0xFFFF), ("crc9-with-serial-0", 9, ref_crc9(d, extra, 0, mv) & 0x1FF), ("crc8", 8, rem_int(bytes_bits(d), 8))]
+        for lab, width, v in srcs:
+            for part, s in (("low", v & 0x7F), ("high", v >> (width - 7)), ("low-reversed", _bitrev(v & 0x7F, 7))):
+                one9(d, s, m, tag, arg, extra, f"dbsn = {part} 7 bits of {lab} of the data, crc32 = {tag.split(':')[0]}", deep=False, bucket=f"dbsn = 7 bits of the {lab.split('-')[0]} of the data")
+        # fixed point: the serial number equals the low 7 bits of the CRC-9 it is part of (searched over the 128 candidates)
+        for s in range(128):
+            if (ref_crc9(d, extra, s, mv) & 0x7F) == s:
+                one9(d, s, m, tag, arg, extra, "dbsn = low 7 bits of the CRC-9 itself", deep=False)
+                break
+        # check(): the last two data octets are the value asked about, which is the CRC-9 of the octets before them
+        x = d[:-2] if len(d) > 2 else d
+        sn = rng.randrange(128)
+        for lab, c9 in (("crc9 of X", ref_crc9(x, extra, sn, mv) & 0x1FF), ("crc9 of X without the crc32 part", ref_crc9(x, [], sn, mv) & 0x1FF)):
+            for nota, t in value_octets(9, c9, 2):
+                dd = x + t
+                good = ref_crc9(dd, extra, sn, mv)
+                for v in dict.fromkeys((c9, good, good ^ 1)):
+                    c = call(CRC9.check, dd, sn, v, m, arg)
+                    pairs9.append((f"crc9.check {hex_str(dd)} {sn} {v} {m.value} {tag}", out_bool(c)))
+                    ctx.case(("crc9.check-cross-tail", dd, sn, v, m.name, tag))
+                    ctx.count("cross:crc9:data-tail=check-value=crc9-of-head")
+                    exp = "ERR AssertionError" if v > 511 else (v == good)
+                    if c != exp:
+                        fail("crc9-check", {"component": "crc9.check", "data": hex_str(dd), "serial": sn, "value": v, "mask": m.name, "crc32": tag, "class": f"data = X|T, value = T; T = {lab}, {nota}"},
+                             "CRC9.check does not accept exactly the computed value when the data ends with the value asked about", str(exp), str(c))
+    # ---------------------------------------------------------------- CRC16.check: data, crc16, mask
+    for k in range(budget2(ctx, 15, 160)):
+        # every mask once on 8 octets (X|T is then the 10-octet body of a 96-bit PDU), then other lengths
+        nbo = 8 if k < len(masks) else rng.choice([8, 10, 2, 4, 1, rng.randint(1, 30)])
+        x = prefix(nbo)
+        m = masks[k % len(masks)]
+        mv = mval(m)
+        other = rng.choice([o for o in masks if o is not m])
+        convs = convention_values(x, mv & 0xFFFF, mval(rng.choice(rate_masks)), rng.randrange(128))
+        convs += [("crc16-under-mask-" + other.name, 16, ref_crc16(x, mval(other)) & 0xFFFF), ("the-mask", 16, mv & 0xFFFF), ("crc16-xor-mask", 16, (ref_crc16(x, mv) ^ mv) & 0xFFFF)]
+        for lab, width, cv in convs:
+            if width == 32 and k % 4:
+                continue
+            for nota, t in value_octets(width, cv, 2):
+                for lay, dd in (("data = X|T", x + t), ("data = T|X", t + x), ("data = X|T|T", x + t + t), ("data = X|T|pad", x + t + bytes(rng.randint(1, 3))), ("data = T", t)):
+                    good = ref_crc16(dd, mv)
+                    klass = f"{lay}, crc16 = T; T = {lab} of X, {nota}"
+                    r = call(CRC16.calculate, dd, m)
+                    pairs16.append((f"crc16 {hex_str(dd)} {m.value}", out_int(r)))
+                    ctx.case(("crc16-cross", dd, m.name))
+                    if r != good:
+                        fail("crc16-front", {"component": "crc16", "data": hex_str(dd), "mask": m.name, "class": klass}, f"CRC16.calculate on data that ends with a check sum of its head ({klass})", good, out_int(r))
+                    tb, tl = int.from_bytes(t, "big"), int.from_bytes(t, "little")
+                    # corruption inside the duplicated part: the data tail hit by a burst <= 16, the value still T
+                    hit = (dd[:-2] + burst_in_octets(rng, dd[-2:], 16)) if len(dd) >= 2 else dd
+                    for data_, vals in ((dd, (tb, tl, good & 0xFFFF, (good & 0xFFFF) ^ (1 << rng.randrange(16)))), (hit, (tb, ref_crc16(hit, mv) & 0xFFFF))):
+                        g_ = ref_crc16(data_, mv)
+                        for v in dict.fromkeys(vals):
+                            c = call(CRC16.check, data_, v, m)
+                            pairs16.append((f"crc16.check {hex_str(data_)} {v} {m.value}", out_bool(c)))
+                            ctx.case(("crc16.check-cross", data_, v, m.name))
+                            ctx.count(f"cross:crc16:{lay.replace(' ', '')}" + (":tail-corrupted" if data_ is hit and hit != dd else ""))
+                            if c != (v == g_):
+                                fail("crc16-check", {"component": "crc16.check", "data": hex_str(data_), "value": v, "mask": m.name, "class": klass + ("; then a burst inside the data tail" if data_ is not dd else "")},
+                                     f"CRC16.check does not accept exactly the computed value when the data carries the value asked about ({klass})", str(v == g_), str(c))
+    # ---------------------------------------------------------------- CRC32.check: data, crc32
+    for k in range(budget2(ctx, 8, 120)):
+        x = prefix(rng.choice([2, 6, 8, 12, 18, 1, 3, rng.randint(0, 40)]))
+        for lab, width, cv in convention_values(x, mval(rng.choice(masks)) & 0xFFFF, mval(rng.choice(rate_masks)), rng.randrange(128)):
+            if width < 16 and k % 3:
+                continue
+            for nota, t in value_octets(width, cv, 4):
+                for lay, dd in (("data = X|T", x + t), ("data = T|X", t + x), ("data = X|T|T", x + t + t), ("data = X|T|pad", x + t + bytes(rng.randint(1, 3)))):
+                    good = ref_crc32(dd)
+                    klass = f"{lay}, crc32 = T; T = {lab} of X, {nota}"
+                    r = call(CRC32.calculate, dd)
+                    pairs32.append((f"crc32 {hex_str(dd)}", out_int(r)))
+                    ctx.case(("crc32-cross", dd))
+                    if r != good:
+                        fail("crc32-front", {"component": "crc32", "data": hex_str(dd), "class": klass}, f"CRC32.calculate on data that ends with a check sum of its head ({klass})", good, out_int(r))
+                    hit = dd[:-4] + burst_in_octets(rng, dd[-4:], 32)
+                    tb, tl = int.from_bytes(t, "big"), int.from_bytes(t, "little")
+                    for data_, vals in ((dd, (tb, tl, good, good ^ (1 << rng.randrange(32)))), (hit, (tb, tl))):
+                        g_ = ref_crc32(data_)
+                        for v in dict.fromkeys(vals):
+                            c = call(CRC32.check, data_, v)
+                            pairs32.append((f"crc32.check {hex_str(data_)} {v}", out_bool(c)))
+                            ctx.case(("crc32.check-cross", data_, v))
+                            ctx.count(f"cross:crc32:{lay.replace(' ', '')}" + (":tail-corrupted" if data_ is hit else ""))
+                            if c != (v == g_):
+                                fail("crc32-check", {"component": "crc32.check", "data": hex_str(data_), "value": v, "class": klass + ("; then a burst inside the data tail" if data_ is hit else "")},
+                                     f"CRC32.check does not accept exactly the computed value when the data carries the value asked about ({klass})", str(v == g_), str(c))
+    # ---------------------------------------------------------------- CRC8.check: bits, crc8 (the check bits as sent: most / least significant first)
+    for k in range(budget2(ctx, 30, 300)):
+        xb = [rng.getrandbits(1) for _ in range(rng.choice([20, 28, 28, 36, rng.randint(1, 80)]))] if k % 5 else [0] * 28
+        c8 = rem_int(xb, 8)
+        for lab, cv in (("crc8 of X", c8), ("crc8 of X complemented", c8 ^ 0xFF), ("low octet of the crc16 of X", rem_int(xb, 16) & 0xFF)):
+            tbits = [(cv >> (7 - i)) & 1 for i in range(8)]
+            for nota, tb_ in (("msb-first", tbits), ("lsb-first", tbits[::-1])):
+                for lay, msg in (("bits = X|T", xb + tb_), ("bits = T|X", tb_ + xb), ("bits = X|T|T", xb + tb_ + tb_)):
+                    good = rem_int(msg, 8)
+                    arg = barg(bitarray(msg))
+                    klass = f"{lay}, crc8 = T; T = {lab}, {nota}"
+                    r = call(CRC8.calculate, bitarray(msg))
+                    pairs8.append((f"crc8 0 {arg}", out_int(r)))
+                    ctx.case(("crc8-cross", arg))
+                    if r != good:
+                        fail("crc8-front", {"component": "crc8", "bits": arg, "class": klass}, f"CRC8.calculate on bits that end with a check sum of their head ({klass})", good, out_int(r))
+                    for v in dict.fromkeys((cv, _bitrev(cv, 8), good, good ^ (1 << rng.randrange(8)))):
+                        c = call(CRC8.check, bitarray(msg), v)
+                        pairs8.append((f"crc8.check 0 {arg} {v}", out_bool(c)))
+                        ctx.case(("crc8.check-cross", arg, v))
+                        ctx.count(f"cross:crc8:{lay.replace(' ', '')}")
+                        if c != (v == good):
+                            fail("crc8-check", {"component": "crc8.check", "bits": arg, "value": v, "class": klass}, f"CRC8.check does not accept exactly the computed value when the bits carry the value asked about ({klass})", str(v == good), str(c))
+    # ---------------------------------------------------------------- register objects: the next piece is the check sum so far
+    enums = {7: crcmod.Crc7, 8: crcmod.Crc8, 9: crcmod.Crc9, 16: crcmod.Crc16, 32: crcmod.Crc32}
+    classes = {False: getattr(crcmod, "BitCrcRegister", None), True: getattr(crcmod, "TableBasedBitCrcRegister", None)}
+    for w, en in enums.items():
+        name = CFG_NAMES[w]
+        for table, cls in classes.items():
+            if cls is None:
+                continue
+            mt = "t" if table else "b"
+            calc = call(crcmod.BitCrcCalculator, en.ETSI_DMR, table)
+            for i in range(budget2(ctx, 8, 40)):
+                reg = call(cls, en.ETSI_DMR)
+                if is_err(reg) or is_err(calc):
+                    break
+                msg = [rng.getrandbits(1) for _ in range(rng.choice([ref_feed_width(w) * rng.randint(1, 5), rng.randint(1, 70)]))]
+                how = ["the-returned-object-itself", "copy-of-the-returned-value", "one-shot-value-of-the-message", "returned-value-twice"][i % 4]
+                call(reg.init)
+                r1 = call(reg.update, bitarray(msg))
+                if not isinstance(r1, bitarray):
+                    continue
+                c1 = [int(b) for b in r1.tolist()]
+                if how == "the-returned-object-itself":
+                    pieces, args = [msg, c1], [r1]
+                elif how == "copy-of-the-returned-value":
+                    pieces, args = [msg, c1], [bitarray(r1)]
+                elif how == "one-shot-value-of-the-message":
+                    o = call(calc.calculate_checksum, bitarray(msg))
+                    if not isinstance(o, bitarray):
+                        continue
+                    pieces, args = [msg, [int(b) for b in o.tolist()]], [o]
+                else:
+                    pieces, args = [msg, c1, c1], [bitarray(r1), bitarray(r1)]
+                outs = [out_bits(r1)] + [out_bits(call(reg.update, a)) for a in args]
+                outs.append(out_bits(call(reg.digest)))
+                exp, acc = [], []
+                for p in pieces:
+                    acc = acc + p
+                    exp.append("".join(str(b) for b in poly_rem(acc, w)))
+                exp.append(exp[-1])
+                pstr = [barg(bitarray(p)) for p in pieces]
+                pairs_r.append((f"crc.reg {name} {mt} i " + " ".join("u:" + s for s in pstr) + " d", ",".join(outs)))
+                ctx.case((name, mt, "cross-stream", tuple(pstr), how))
+                ctx.count(f"cross:register:next-piece-is-{how}")
+                if outs != exp:
+                    fail("stream-not-remainder", {"component": "stream", "config": name, "table": table, "pieces": pstr, "object": "fresh", "previous": None, "mutate_returned": False, "class": "next piece = " + how},
+                         f"{name} {'table' if table else 'bit-by-bit'} register: the check sum so far fed back as the next piece ({how})", ",".join(exp), ",".join(outs))
+    if not ctx.search_only and ctx.driver_ok:
+        ctx.correspond("CRC9.cross-part", pairs9)
+        ctx.correspond("CRC16.cross-part", pairs16)
+        ctx.correspond("CRC32.cross-part", pairs32)
+        ctx.correspond("CRC8.cross-part", pairs8)
+        ctx.correspond("register.cross-part", pairs_r)
+
+
 CORPUS = [
     # (config width, bits): lengths around the feed widths and the CRC-9 block sizes
     (9, "1" * 87), (9, "1" * 135), (9, "1" * 183), (9, "0" * 8 + "1"), (7, "1" * 8), (16, "1" * 9), (32, "1" * 33), (8, "1"),
@@ -2595,6 +2977,17 @@ def run(ctx):
         "(f) a fixed sample of the oracle with the root logger at DEBUG, sys.stdout / stderr raising, `random` reseeded between calls, warnings as "
         "errors, and in a fresh `python -O` child process whose first library calls raise and whose first lookup tables are asked for by non-default "
         "configurations. "
+        "Round 4: self-referential inputs ACROSS ARGUMENTS / PARTS — one part is a check sum of (a prefix of) another part AND is handed over again as a "
+        "separate argument: CRC-9 parts with data = X|T (also T|X, X|T|T, X|T|pad, T alone) and crc32 = T (bytes, big-endian int, the trailer read as a "
+        "little-endian int, octet-reversed, the same bytes object / bytearray / memoryview), T = the check sum of X in every convention of this file (library "
+        "CRC-32 as little-endian trailer / big-endian / octet pairs swapped, remainder over unswapped octets, zlib / bzip2 flavour, complemented, CRC-CCITT under "
+        "a mask / plain / not masked / crc_hqx, CRC-9, CRC-8 — narrower values zero-padded or repeated), against the reference division of data|crc32|dbsn with "
+        "every part covered exactly once; check() on the computed value and on the values with a part left out / counted twice; a burst <= 9 bits inside the "
+        "crc32 argument and inside the data tail must change the CRC-9; dbsn = low / high 7 bits of the CRC-32 / CRC-CCITT / CRC-9 / CRC-8 of the data, dbsn = "
+        "low bits of the CRC-9 it is part of (fixed point); CRC9.check with data tail = the value asked about = CRC-9 of the data head; CRC16.check / "
+        "CRC32.check / CRC8.check with data = X|T (T|X, X|T|T, X|T|pad, T) and the value asked about = T (both octet orders; bits most / least significant "
+        "first) for T = every convention incl. the CRC under another mask and the mask itself, also with the data tail then hit by a burst; register objects "
+        "whose next piece is the check sum returned so far (the returned object itself, a copy, the one-shot value, twice). "
         "A case is non-trivial unless the message is empty or all-zero; distinct = distinct (component, input)."
     )
     ctx.trusted_base += [
@@ -2624,6 +3017,7 @@ def run(ctx):
     stream_cases(ctx, crcmod)
     transform_cases(ctx, crcmod, CRC8, CRC9, CRC16, CRC32, CrcMasks)
     correlated_cases(ctx, crcmod, CRC8, CRC9, CRC16, CRC32, CrcMasks)
+    cross_part_cases(ctx, crcmod, CRC8, CRC9, CRC16, CRC32, CrcMasks)
     provenance_cases(ctx, crcmod, CRC8, CRC9, CRC16, CRC32, CrcMasks)
     long_message_cases(ctx, crcmod, CRC16, CRC32, CrcMasks)
     ambient_cases(ctx)
@@ -2722,6 +3116,17 @@ def replay(obj):
         print(f"implementation CRC9.calculate_from_parts = {r}; expected {good}")
         lines = [f"crc9 {hex_str(d)} {inp['serial']} {m.value} {tag}"]
         still = int(r != good)
+    elif comp == "burst-crc9-parts":
+        m = CrcMasks[inp["mask"]]
+        res = []
+        for dk, ck in (("data", "crc32"), ("data2", "crc32_2")):
+            d = bytes.fromhex(inp[dk]) if inp[dk] != "-" else b""
+            tag = inp[ck]
+            arg = None if tag == "none" else (int(tag[2:]) if tag.startswith("i:") else bytes.fromhex(tag[2:]))
+            res.append(call(CRC9.calculate_from_parts, d, inp["serial"], m, arg))
+            lines.append(f"crc9 {hex_str(d)} {inp['serial']} {m.value} {tag}")
+        print(f"implementation CRC9.calculate_from_parts of the two part sets (differing by a burst <= 9 bits) = {res[0]} / {res[1]}")
+        still = int(res[0] == res[1])
     elif comp == "crc16.check":
         d = bytes.fromhex(inp["data"]) if inp["data"] != "-" else b""
         m = CrcMasks[inp["mask"]]
